@@ -30,7 +30,10 @@ class TapeModule:
         a, b = operator.index(a), operator.index(b)    # as random.randrange does
         if a > b:
             raise ValueError("empty range for randrange() (%d, %d, %d)" % (a, b + 1, b + 1 - a))
-        r = {"lo": a, "hi": b, "lo1": min(a + 1, b), "hi1": max(b - 1, a)}[sel]
+        if sel.startswith("i:"):                       # explicit outcome: the k-th value of the range
+            r = a + (int(sel[2:]) - 1) % (b - a + 1)
+        else:
+            r = {"lo": a, "hi": b, "lo1": min(a + 1, b), "hi1": max(b - 1, a)}[sel]
         self.log.append(("randint", a, b, r))
         return r
 
@@ -39,13 +42,16 @@ class TapeModule:
         n = len(seq)
         if n == 0:
             raise IndexError("Cannot choose from an empty sequence")
-        i = {"lo": 1, "hi": n, "lo1": min(2, n), "hi1": max(n - 1, 1)}[sel]
+        if sel.startswith("i:"):
+            i = (int(sel[2:]) - 1) % n + 1
+        else:
+            i = {"lo": 1, "hi": n, "lo1": min(2, n), "hi1": max(n - 1, 1)}[sel]
         self.log.append(("choice", n, i))
         return seq[i - 1]
 
     def uniform(self, a, b):
         sel = self._sel()
-        r = a if sel in ("lo", "lo1") else b
+        r = a if (sel in ("lo", "lo1") or (sel.startswith("i:") and int(sel[2:]) % 2)) else b
         if sel in ("lo1", "hi1"):
             try:
                 qa, qb = am.a_float(a), am.a_float(b)
